@@ -213,6 +213,7 @@ fn grammar_doc(rng: &mut Rng, depth: usize) -> (MVal, String) {
 
 pub fn run(ctx: &mut Ctx) {
     // --- nesting ladders: may abort the process, so each is its own announced case -------------
+    crate::util::on_thread_stack(ctx, |ctx: &mut Ctx| {
     let ladders: [(&str, &str, &str, &str); 6] = [
         ("ladder-list", "[", "1", "]"),
         ("ladder-dict", "{a:", "1", "}"),
@@ -322,6 +323,7 @@ pub fn run(ctx: &mut Ctx) {
         }
     }
 
+    });
     // --- every \\uXXXX escape (all 65,536 code units, both hex cases) in every literal that takes escapes ----
     {
         let per = 65536u64 / ctx.nshards.max(1) + 1;
